@@ -92,6 +92,9 @@ func gen(prop, tier string, r *Rng, out *bufio.Writer, st *Stats) {
 		}
 	case "C09":
 		genC09(g, r, tier)
+		if tier == "thorough" && os.Getenv("VERIF_NO_SWEEP32") == "" {
+			genC09Sweep32(g)
+		}
 	case "C10":
 		genC10(w, r, tier)
 	case "C12":
